@@ -1,21 +1,30 @@
-(* MiniPy: a deep embedding of the small Python subset in which pyrtcm's integer kernels are written, with a
-   structural big-step interpreter.  tools/gen_src.py translates the *current* source text of those functions
-   (Python `ast`, fail-closed) into values of type [func]; run/Src_inst.v then proves, per run, that interpreting
-   the translated source gives the hand-written model's function for every argument.  No proofs here.
+(* MiniPy: a deep embedding of the small Python subset in which pyrtcm's integer kernels and two small methods of
+   RTCMMessage (serialize, identity) are written, with a structural big-step interpreter.  tools/gen_src.py translates
+   the *current* source text of those functions (Python `ast`, fail-closed) into values of type [func];
+   run/Src_inst.v then proves, per run, that interpreting the translated source gives the hand-written model's
+   function for every argument.  No proofs here.
 
    Semantics covered (CPython 3.12): unbounded ints with + - * << >> & | ^ (negative shift count = ValueError),
-   truthiness of ints, locals are function-scoped and reading an unassigned one is UnboundLocalError,
-   `for x in <bytes>` yields the byte values as ints, `for x in range(<int>)`, `len(<bytes>)`,
-   `<int>.to_bytes(n, "big")` (OverflowError when it does not fit or is negative), calls of other translated
-   one-argument functions, `return`. *)
-From Coq Require Import ZArith NArith List String.
+   `+` on two bytes / two str values (concatenation), truthiness of ints / bytes / str / bool, locals are
+   function-scoped and reading an unassigned one is UnboundLocalError, `for x in <bytes>` yields the byte values as
+   ints, `for x in range(<int>)`, `len(<bytes>)`, `<int>.to_bytes(n, "big")` (OverflowError when it does not fit or is
+   negative), bytes literals, `<bytes>[<int>]` (negative indices count from the end, IndexError outside), `a == b` on
+   ints (a bool), `str(e)` and the f-string pieces `{e}` / `{e:03d}` (with CPython's 4300-digit limit on int -> str),
+   calls of other translated one-argument functions, `return`.  A method `def f(self)` is a function of the VALUE of
+   `self._payload` (the translator checks that nothing else of `self` is touched); the variable is then literally
+   named "self._payload".
+
+   Whatever Python defines but this file does not spell out (bool arithmetic, sequence repetition, str(bytes), ...)
+   evaluates to the distinguished error [PyUnmodelled], which no theorem's right-hand side can produce. *)
+From Coq Require Import ZArith NArith List String Ascii.
 From Coq.Strings Require Import Byte.
-From PyRtcm Require Import Base.Bytes.
+From PyRtcm Require Import Base.Bytes Base.Dec.
 Import ListNotations.
 Open Scope Z_scope.
 
-Inductive pval := PInt (z:Z) | PBytes (b:list byte) | PUnbound.
-Inductive perr := PyUnbound (x:string) | PyType (why:string) | PyValue (why:string) | PyOverflow | PyNoReturn | PyNoFunc (f:string).
+Inductive pval := PInt (z:Z) | PBytes (b:list byte) | PUnbound | PStr (s:string) | PBool (b:bool).
+Inductive perr := PyUnbound (x:string) | PyType (why:string) | PyValue (why:string) | PyOverflow | PyNoReturn | PyNoFunc (f:string)
+                | PyIndex | PyUnmodelled (why:string).
 Inductive pres (A:Type) := POk (a:A) | PErr (e:perr).
 Arguments POk {A}. Arguments PErr {A}.
 
@@ -26,7 +35,14 @@ Inductive expr :=
 | EBin (o:binop) (a b:expr)
 | ELen (a:expr)
 | EToBytesBig (a:expr) (n:Z)
-| ECall (f:string) (a:expr).
+| ECall (f:string) (a:expr)
+| EBytes (bs:list byte)              (* a bytes literal (or a module constant resolved by the translator) *)
+| EIndex (a i:expr)                  (* a[i] *)
+| ECmpEq (a b:expr)                  (* a == b *)
+| EStrOf (a:expr)                    (* str(a), and the f-string piece {a} (format(a, "") -- the same on int, str, bool) *)
+| EFmt03d (a:expr)                   (* the f-string piece {a:03d} *)
+| EStrLit (s:string)                 (* literal text of an f-string *)
+| EStrCat (a b:expr).                (* joining the pieces of an f-string, left to right *)
 Inductive iter := IBytes (e:expr) | IRange (e:expr).
 Inductive stmt :=
 | SAssign (x:string) (e:expr)
@@ -50,41 +66,122 @@ Definition binop_sem (o:binop) (a b:Z) : pres Z :=
   | OAnd => POk (Z.land a b) | OOr => POk (Z.lor a b) | OXor => POk (Z.lxor a b)
   end.
 
+(* a binary operator on two already evaluated operands *)
+Definition is_seq (v:pval) : bool := match v with PBytes _ | PStr _ => true | _ => false end.
+Definition binop_val (o:binop) (a b:pval) : pres pval :=
+  match a, b with
+  | PInt x, PInt y => match binop_sem o x y with POk z => POk (PInt z) | PErr e => PErr e end
+  | PBytes x, PBytes y => match o with OAdd => POk (PBytes (x ++ y)) | _ => PErr (PyType "operand") end
+  | PStr x, PStr y => match o with OAdd => POk (PStr (x ++ y)) | _ => PErr (PyType "operand") end
+  | PBool _, _ | _, PBool _ => PErr (PyUnmodelled "bool operand")          (* bool is an int in Python *)
+  | PUnbound, _ | _, PUnbound => PErr (PyType "operand")                   (* never the value of an expression *)
+  | _, _ => match o with
+            | OMul => if xorb (is_seq a) (is_seq b) then PErr (PyUnmodelled "sequence repetition") else PErr (PyType "operand")
+            | _ => PErr (PyType "operand")
+            end
+  end.
+
+(* b[i] on bytes: the byte as an int; i < 0 counts from the end *)
+Definition index_bytes (b:list byte) (i:Z) : pres pval :=
+  let at_ (k:nat) := match nth_error b k with Some x => POk (PInt (Z.of_N (bN x))) | None => PErr PyIndex end in
+  match i with
+  | Zneg _ => let j := Z.of_nat (List.length b) + i in if j <? 0 then PErr PyIndex else at_ (Z.to_nat j)
+  | _ => at_ (Z.to_nat i)
+  end.
+
+(* int -> decimal text.  CPython >= 3.11 refuses more than sys.int_max_str_digits (4300) digits, sign not counted *)
+Definition int_str_limit : Z := 10 ^ 4300.
+Definition str_int (z:Z) : pres string :=
+  if Z.abs z <? int_str_limit then POk (str_of_Z z) else PErr (PyValue "int max str digits").
+(* format(z, "03d"): zero padding to width 3, the sign counts towards the width *)
+Definition fmt03d_int (z:Z) : pres string :=
+  if Z.abs z <? int_str_limit then
+    POk (match z with Zneg p => String "-"%char (fmt_d 2 (Npos p)) | _ => fmt_d 3 (Z.to_N z) end)
+  else PErr (PyValue "int max str digits").
+
+Definition str_val (v:pval) : pres pval :=
+  match v with
+  | PInt z => match str_int z with POk s => POk (PStr s) | PErr e => PErr e end
+  | PStr s => POk (PStr s)
+  | PBool b => POk (PStr (if b then "True" else "False"))
+  | PBytes _ => PErr (PyUnmodelled "str of bytes")
+  | PUnbound => PErr (PyType "str")
+  end.
+Definition fmt03d_val (v:pval) : pres pval :=
+  match v with
+  | PInt z => match fmt03d_int z with POk s => POk (PStr s) | PErr e => PErr e end
+  | PStr _ => PErr (PyValue "format code d for str")
+  | PBool _ => PErr (PyUnmodelled "format of bool")
+  | PBytes _ | PUnbound => PErr (PyType "format")
+  end.
+Definition eq_val (a b:pval) : pres pval :=
+  match a, b with
+  | PInt x, PInt y => POk (PBool (x =? y))
+  | _, _ => PErr (PyUnmodelled "== on non-ints")
+  end.
+Definition strcat_val (a b:pval) : pres pval :=
+  match a, b with
+  | PStr x, PStr y => POk (PStr (x ++ y))
+  | _, _ => PErr (PyType "f-string piece")                                 (* pieces are str by construction *)
+  end.
+
 Definition calls := string -> option (pval -> pres pval).
 
 Section Interp.
   Variable C : calls.
 
+  (* operands are evaluated left to right, then the operation is applied *)
+  Definition bind2 (x y:pres pval) (f:pval -> pval -> pres pval) : pres pval :=
+    match x with POk a => match y with POk b => f a b | PErr e => PErr e end | PErr e => PErr e end.
+
   Fixpoint eval (e:expr) (s:env) : pres pval :=
     match e with
     | EInt z => POk (PInt z)
     | EVar x => match lookup x s with Some PUnbound | None => PErr (PyUnbound x) | Some v => POk v end
-    | EBin o a b =>
-        match eval a s with
-        | POk (PInt x) => match eval b s with
-                          | POk (PInt y) => match binop_sem o x y with POk z => POk (PInt z) | PErr e => PErr e end
-                          | POk _ => PErr (PyType "operand") | PErr e => PErr e end
-        | POk _ => PErr (PyType "operand") | PErr e => PErr e
-        end
-    | ELen a => match eval a s with POk (PBytes b) => POk (PInt (Z.of_nat (List.length b))) | POk _ => PErr (PyType "len") | PErr e => PErr e end
+    | EBin o a b => bind2 (eval a s) (eval b s) (binop_val o)
+    | ELen a => match eval a s with
+                | POk (PBytes b) => POk (PInt (Z.of_nat (List.length b)))
+                | POk (PStr _) => PErr (PyUnmodelled "len of str")
+                | POk _ => PErr (PyType "len") | PErr e => PErr e end
     | EToBytesBig a n =>
         match eval a s with
         | POk (PInt z) => if orb (z <? 0) (n <? 0) then PErr PyOverflow else
                           match to_bytes (Z.to_nat n) (Z.to_N z) with Some b => POk (PBytes b) | None => PErr PyOverflow end
+        | POk (PBool _) => PErr (PyUnmodelled "to_bytes of bool")
         | POk _ => PErr (PyType "to_bytes") | PErr e => PErr e
         end
     | ECall f a => match C f with
                    | None => PErr (PyNoFunc f)
                    | Some g => match eval a s with POk v => g v | PErr e => PErr e end
                    end
+    | EBytes bs => POk (PBytes bs)
+    | EIndex a i =>
+        bind2 (eval a s) (eval i s) (fun va vi =>
+          match va, vi with
+          | PBytes b, PInt k => index_bytes b k
+          | PBytes _, PBool _ => PErr (PyUnmodelled "bool index")
+          | PStr _, (PInt _ | PBool _) => PErr (PyUnmodelled "str index")
+          | _, _ => PErr (PyType "subscript")
+          end)
+    | ECmpEq a b => bind2 (eval a s) (eval b s) eq_val
+    | EStrOf a => match eval a s with POk v => str_val v | PErr e => PErr e end
+    | EFmt03d a => match eval a s with POk v => fmt03d_val v | PErr e => PErr e end
+    | EStrLit t => POk (PStr t)
+    | EStrCat a b => bind2 (eval a s) (eval b s) strcat_val
     end.
 
   Inductive flow := FNext (s:env) | FRet (v:pval).
 
   Definition iter_values (it:iter) (s:env) : pres (list pval) :=
     match it with
-    | IBytes e => match eval e s with POk (PBytes b) => POk (map (fun x => PInt (Z.of_N (bN x))) b) | POk _ => PErr (PyType "iter") | PErr e => PErr e end
-    | IRange e => match eval e s with POk (PInt n) => POk (map (fun i => PInt (Z.of_nat i)) (seq 0 (Z.to_nat n))) | POk _ => PErr (PyType "range") | PErr e => PErr e end
+    | IBytes e => match eval e s with
+                  | POk (PBytes b) => POk (map (fun x => PInt (Z.of_N (bN x))) b)
+                  | POk (PStr _) => PErr (PyUnmodelled "iterating a str")
+                  | POk _ => PErr (PyType "iter") | PErr e => PErr e end
+    | IRange e => match eval e s with
+                  | POk (PInt n) => POk (map (fun i => PInt (Z.of_nat i)) (seq 0 (Z.to_nat n)))
+                  | POk (PBool _) => PErr (PyUnmodelled "range of bool")
+                  | POk _ => PErr (PyType "range") | PErr e => PErr e end
     end.
 
   Section Loop.
@@ -96,6 +193,16 @@ Section Interp.
       | v::r => match body (update x v s) with POk (FNext s') => loop r s' | other => other end
       end.
   End Loop.
+
+  (* truth value of an evaluated condition *)
+  Definition truth (v:pval) : pres bool :=
+    match v with
+    | PInt z => POk (negb (z =? 0))
+    | PBytes b => POk (match b with [] => false | _ => true end)
+    | PStr t => POk (match t with EmptyString => false | _ => true end)
+    | PBool b => POk b
+    | PUnbound => PErr (PyType "truth")
+    end.
 
   Fixpoint exec (st:stmt) (s:env) {struct st} : pres flow :=
     let exec_list := fix go (l:list stmt) (s:env) {struct l} : pres flow :=
@@ -109,9 +216,8 @@ Section Interp.
         match iter_values it s with POk vs => loop (exec_list body) x vs s | PErr e => PErr e end
     | SIf c th el =>
         match eval c s with
-        | POk (PInt z) => if z =? 0 then exec_list el s else exec_list th s
-        | POk (PBytes b) => match b with [] => exec_list el s | _ => exec_list th s end
-        | POk PUnbound => PErr (PyType "truth") | PErr e => PErr e
+        | POk v => match truth v with POk true => exec_list th s | POk false => exec_list el s | PErr e => PErr e end
+        | PErr e => PErr e
         end
     | SReturn e => match eval e s with POk v => POk (FRet v) | PErr e => PErr e end
     end.
